@@ -188,6 +188,35 @@ Theorem C03_fresh_meta_ok : forall c s, (forall k, is_grouped (ax_of s k) = fals
 Proof. exact meta_ok_fresh. Qed.
 Print Assumptions C03_fresh_meta_ok.
 
+(** the masked genotyping protocols rebuild the variant group metadata of a grouped matrix: the result is again a true
+    partition of the group labels that survive the mask (groups that lose all variants disappear) *)
+Theorem C03_mask_meta_partition : forall (a : axst) (labs' : list (option larr)) (l : larr) nm ix sp ln (m : list bool) g,
+  m_name a = Some nm -> m_stix a = Some ix -> m_spix a = Some sp -> m_len a = Some ln ->
+  partition_ok (unsome l) nm ix sp ln -> length m = length l -> nth g labs' None = Some (pick (mask_positions m) l) ->
+  grouped_ok (mask_meta (with_labs a labs') (mask_positions m)) g.
+Proof. exact mask_meta_partition. Qed.
+Print Assumptions C03_mask_meta_partition.
+(** all three genotyping protocols (unphased, masked phased, masked unphased, with or without inversion, with or
+    without a mask) keep "grouped => true partition" on both the taxa and the variant axis of their result *)
+Theorem C03_genotype_meta_inv : forall p s s', length (axes s) = 3%nat ->
+  (forall l, nth 0 (labs (ax_of s 2)) None = Some l -> length l = nth 2 (shape s) O) ->
+  meta_ok cDensePhasedGenotypeMatrix s -> op_genotype p s = OK s' -> meta_ok (result_cls p) s'.
+Proof. exact genotype_meta_inv. Qed.
+Print Assumptions C03_genotype_meta_inv.
+
+(** concat along an axis that occupies one array axis: the entity list becomes self ++ operand_1 ++ ... ++ operand_m for
+    the cells and for every label array (a name array lacked by some of the matrices is filled with None there) *)
+Theorem C03_concat_refines : forall (ent : Type) (val : list ent -> Z) (lbl : nat -> nat -> ent -> lab) c s k (vus : list (operand * list ent)) ess a s',
+  wf_cls c -> Rep val lbl c s ess -> (k < length (axs c))%nat -> taxes c k = [a] ->
+  Forall (fun vu => RepCat val lbl c k (fst vu) ess (snd vu)) vus ->
+  (forall j, nth j (cat_fill (sch c k)) false = true ->
+     (nth j (labs (ax_of s k)) None = None -> forall e, In e (nth a ess []) -> lbl k j e = None) /\
+     Forall (fun vu => nth j (labs (nth k (o_axes (fst vu)) ax0)) None = None -> forall e, In e (snd vu) -> lbl k j e = None) vus) ->
+  op_concat c s k (map fst vus) = OK s' ->
+  Rep val lbl c s' (upd a (nth a ess [] ++ concat (map snd vus)) ess) /\ (drop_other c = false -> no_loss s s').
+Proof. intros ent val lbl. exact (concat_refines val lbl). Qed.
+Print Assumptions C03_concat_refines.
+
 (** every history of select / delete / remove / reorder / sort / group / ungroup steps (any class incl. the square ones,
     any labelled axis, generic or axis-specific form, any arguments): each state reached is the image ([Rep]) of entity
     lists whose members all come from the initial lists of the same axis — labels and cells travel with their entity *)
